@@ -173,6 +173,58 @@ pub fn resolve_receiver(w: &World, receiver: &Option<String>, sender: &Addr) -> 
 
 impl Monitor for C04 {
     fn step(&mut self, w: &mut World, s: &Step, rep: &mut Reporter) {
+        self.judge(w, s, rep);
+        if s.idx % 120 == 77 {
+            self.lp_pool_probe(w, s, rep);
+        }
+    }
+}
+
+impl C04 {
+    fn forked(&mut self, w: &mut World, op: &Op, idx: usize, rep: &mut Reporter) -> bool {
+        let pre = crate::ops::observe(w);
+        let fpre = crate::wfarm::fobserve(w);
+        let pre_snap = w.snapshot();
+        let out = w.apply(op);
+        let post = crate::ops::observe(w);
+        let fpost = crate::wfarm::fobserve(w);
+        let st = Step { idx, op, pre_snap: &pre_snap, pre: &pre, out: &out, post: &post, fpre: &fpre, fpost: &fpost };
+        self.judge(w, &st, rep);
+        out.is_ok()
+    }
+
+    /// forked: a pool one of whose assets is itself a token-factory denom (the LP token of another
+    /// pool), with every kind of fee; swaps in both directions and a route through it are judged
+    /// by the ordinary clauses (the burn fee of a factory denom must leave the supply like any other)
+    fn lp_pool_probe(&mut self, w: &mut World, s: &Step, rep: &mut Reporter) {
+        use crate::wpool::{create_pool_op, pool_fee, provide_op, swap_op};
+        use cosmwasm_std::coin;
+        let holder = s.post.pools.values().filter(|p| p.funded()).find_map(|p| {
+            w.users.iter().find(|u| s.post.bal(u, &p.info.lp_denom) >= 1_000_000 && s.post.bal(u, "uom") >= 10u128.pow(12)).map(|u| (u.clone(), p.info.lp_denom.clone(), s.post.bal(u, &p.info.lp_denom)))
+        });
+        let (u, lp, bal) = match holder {
+            Some(h) => h,
+            None => return,
+        };
+        let snap = w.snapshot();
+        let name = format!("lpp{}", s.idx);
+        let pid = format!("o.{name}");
+        let mut ok = w.apply(&create_pool_op(w, &u, &[lp.as_str(), "uom"], mantra_dex_std::pool_manager::PoolType::ConstantProduct, pool_fee(10, 30, 25, &[10]), Some(&name))).is_ok();
+        ok &= w.apply(&provide_op(&u, &pid, vec![coin(bal / 4, lp.clone()), coin(10u128.pow(9), "uom")], None, None, None, None, None)).is_ok();
+        if !ok {
+            rep.count("bank_slice", "lp_pool_probe_not_set_up");
+            w.restore(&snap);
+            return;
+        }
+        let half = Some(cosmwasm_std::Decimal::percent(50));
+        let a = self.forked(w, &swap_op(&u, &pid, coin(10u128.pow(7), "uom"), &lp, None, half, None), s.idx, rep);
+        let bal_now = w.balance(&u, &lp);
+        let b = self.forked(w, &swap_op(&u, &pid, coin((bal / 400).max(1).min(bal_now), lp.clone()), "uom", None, half, Some(w.users[0].to_string())), s.idx, rep);
+        rep.count("bank_slice", &format!("lp_pool_probe: swap into a token-factory denom executed={a}, out of it executed={b}"));
+        w.restore(&snap);
+    }
+
+    fn judge(&mut self, w: &mut World, s: &Step, rep: &mut Reporter) {
         if !s.out.is_ok() {
             return;
         }
